@@ -95,6 +95,24 @@ def sqlite_rebuild_drops_meta(case, outcome, atoms):
     res = outcome.get('res') or {}
     rebuilds = res.get('rebuilds') or {}
     final = res.get('final_spec')
+    if not rebuilds and res.get('trace') is not None and \
+            any(a[0] == 'exception' for a in atoms):
+        # the run stopped with an exception: a later removal of a Meta group that an
+        # earlier rebuild of the same run already lost fails with 'no such index'
+        from . import inproc
+        from . import specs as S
+        rb = inproc.rebuild_counts(res['trace'].statements)
+        meta_tables = set()
+        for sp in _trail(case):
+            for a_, _n, m in S.iter_models(sp):
+                if m['unique_together'] or m['index_together'] or m['indexes'] or \
+                        m['constraints']:
+                    meta_tables.add(S.table_of(a_, m))
+        if any(t in meta_tables for t in rb):
+            return [a for a in atoms
+                    if not (a[0] == 'exception' and a[2] == 'OperationalError' and
+                            'no such index' in str(a[4]))]
+        return atoms
     if not rebuilds or final is None:
         return atoms
     hist = _table_history(_trail(case))
@@ -431,6 +449,34 @@ def renamed_indexed_field_keeps_index_name(case, outcome, atoms):
     return [a for a in atoms
             if not (a[0] == 'exception' and a[2] == 'DatabaseStateError' and
                     'already exists' in str(a[4]))]
+
+
+@explainer
+def hint_retargets_relation_with_changefield(case, outcome, atoms):
+    """F-C05-4 seen from the database side: a relation that keeps its name but
+    points at another model is hinted as ChangeField(related_model=...), which
+    ChangeField.mutate refuses: EvolutionNotImplementedError "ChangeField does not
+    support modifying the 'related_model' attribute".  Nothing is executed."""
+    from . import specs as S
+    if case.get('mode') != 'hinted':
+        return atoms
+    trail = _trail(case)
+    start, final = trail[0], trail[-1]
+    trig = False
+    for a, n, m in S.iter_models(final):
+        m0 = S.get_model(start, a, n)
+        if m0 is None:
+            continue
+        for f in m['fields']:
+            f0 = S.get_field(m0, f['name'])
+            if f0 is not None and f0['target'] and f['target'] and \
+                    list(f0['target']) != list(f['target']):
+                trig = True
+    if not trig:
+        return atoms
+    return [a for a in atoms
+            if not (a[0] == 'exception' and a[2] == 'EvolutionNotImplementedError' and
+                    'related_model' in str(a[4]))]
 
 
 @explainer
